@@ -73,6 +73,34 @@ def chain(x: int) -> int:
     return add(leaf(x), b=leaf(x + 1))
 
 @task()
+def left(x: int) -> int:
+    return 2 * x
+
+@task()
+def right(x: int) -> int:
+    return 2 * x + 1
+
+@task()
+def single(x: int) -> int:
+    return x + 100
+
+@task()
+def combine(parts, extra=0):
+    return [parts, extra]
+
+@task()
+def multi(n: int):
+    # one argument fed by two upstream calls, another by one
+    return combine([left(n), right(n)], single(n))
+
+@task()
+def nested_multi(n: int):
+    # one argument fed by four upstream calls (nested containers, an upstream of an upstream),
+    # and the result used again as a multi-upstream argument
+    inner = combine({"l": left(n), "r": [right(n), single(n), leaf(n)]}, extra=left(n + 1))
+    return combine([inner, right(n + 1), left(n + 1)], extra=combine((single(n), single(n + 1))))
+
+@task()
 def boom(x: int) -> int:
     raise ValueError("boom %d" % x)
 
@@ -90,6 +118,10 @@ def main(kind: str = "fan", n: int = 3, seed: int = 0, base: str = "."):
         return files(base, n)
     if kind == "inline":
         return inline_files(base, n)
+    if kind == "multi":
+        return multi(seed + n)
+    if kind == "nested":
+        return nested_multi(seed + n)
     if kind == "apply":
         return apply(leaf, seed)
     if kind == "chain":
@@ -98,7 +130,8 @@ def main(kind: str = "fan", n: int = 3, seed: int = 0, base: str = "."):
         return catch(boom(seed), ValueError, recover)
     if kind == "boom":
         return [leaf(seed), boom(seed)]
-    return [fan(n, seed), chain(seed), twice(n), files(base, 2), apply(leaf, n), inline_files(base, 2)]
+    return [fan(n, seed), chain(seed), twice(n), files(base, 2), apply(leaf, n), inline_files(base, 2),
+            multi(n + seed)]
 '''
 
 TABLES = {
@@ -214,12 +247,22 @@ class World:
         return res, err
 
     def target(self, repo, t):
-        what, idx = t
+        what, idx = t[0], t[1]
         con = sqlite3.connect(self.db(repo))
         e = self.execs[repo][idx % len(self.execs[repo])]
         try:
             if what == "exec":
                 return e
+            if what in ("subjob", "subcall"):
+                # a job below the root job (by task name; t[3] = which one), or its call node
+                rows = con.execute(
+                    "select j.id, j.call_hash from job j join task t on j.task_hash = t.hash "
+                    "where j.execution_id = ? and t.name = ? and j.call_hash is not null order by j.start_time, j.id",
+                    (e, t[2])).fetchall()
+                if rows:
+                    jid, ch = rows[(t[3] if len(t) > 3 else 0) % len(rows)]
+                    return jid if what == "subjob" else ch
+                what = "job" if what == "subjob" else "call"
             job = con.execute("select job_id from execution where id=?", (e,)).fetchone()[0]
             if what == "job":
                 return job
@@ -293,7 +336,8 @@ class World:
 
     def transfer(self, st):
         s, d = st["src"], st["dst"]
-        root_ids = [self.target(s, t) for t in st["roots"]] if st.get("roots") else None
+        # `roots_from`: resolve the root descriptions in the repository the records came from (relay)
+        root_ids = [self.target(st.get("roots_from", s), t) for t in st["roots"]] if st.get("roots") else None
         rec = {"step": st, "root_ids": root_ids}
         rec["src"] = dump(self.db(s))
         rec["dst_before"] = dump(self.db(d))
@@ -335,7 +379,7 @@ class World:
         try:
             for row in src["call_node"]:
                 ch, _, th, ah = row[0], row[1], row[2], row[3]
-                if ch not in ids or ch in had or len(out) >= 80:
+                if ch not in ids or ch in had or len(out) >= 40:
                     continue
                 regs = [("all", sorted(all_tasks))]
                 for t in sorted(subtree.get(ch, []))[:3]:
